@@ -1,6 +1,8 @@
 package kit
 
 import (
+	"errors"
+	"net"
 	"testing/synctest"
 
 	"github.com/mycoria/mycoria/peering"
@@ -14,6 +16,8 @@ type Wire struct {
 	EA, EB *Endpoint
 
 	LinkA, LinkB peering.Link
+	// AttemptB is B's link object whether or not it got registered.
+	AttemptB peering.Link
 	ErrA, ErrB   error
 	DoneA, DoneB bool
 	PanicA       any
@@ -60,10 +64,23 @@ func (w *Wire) StartA() {
 	}()
 }
 
-// StartB launches B's side (incoming).
+// ErrSetupFailed is reported for the accepting side, whose setup worker logs
+// its error instead of returning it.
+var ErrSetupFailed = errors.New("link setup of the accepted connection failed")
+
+// StartB launches B's side (incoming) the way the listener does: through the
+// setup worker of an accepted connection.
 func (w *Wire) StartB() {
 	go func() {
-		p, v := Try(func() { w.LinkB, w.ErrB = w.B.Peering().VerifSetupLink(w.EB, nil, false) })
+		p, v := Try(func() {
+			reg, att := w.B.Peering().VerifAcceptLink(w.EB, nil)
+			w.AttemptB = att
+			if reg != nil {
+				w.LinkB = reg
+			} else {
+				w.ErrB = ErrSetupFailed
+			}
+		})
 		if p {
 			w.PanicB = v
 		}
@@ -139,4 +156,19 @@ func (w *Wire) Shutdown() {
 	_ = w.EA.Close()
 	_ = w.EB.Close()
 	synctest.Wait()
+}
+
+// Accept runs the link setup of an accepted connection on n the way its
+// listener would (setup worker under the module manager). A panic - raised
+// directly or recovered by the worker wrapper - is returned as panicked.
+func Accept(n *Node, conn net.Conn) (l peering.Link, panicked any) {
+	watch := WatchPanics(n)
+	p, v := Try(func() { l, _ = n.Peering().VerifAcceptLink(conn, nil) })
+	if p {
+		return nil, v
+	}
+	if al := watch(); len(al) > 0 {
+		return l, al[0]
+	}
+	return l, nil
 }
